@@ -6,12 +6,14 @@ import (
 	"net/http"
 	"net/http/httptest"
 	"os"
+	"reflect"
 	"strings"
 	"sync"
 	"sync/atomic"
 	"testing"
 	"time"
 
+	"github.com/bluenviron/gohlslib/v2/pkg/codecs"
 	"github.com/bluenviron/mediacommon/v2/pkg/codecs/av1"
 	"github.com/bluenviron/mediacommon/v2/pkg/codecs/h264"
 	"pgregory.net/rapid"
@@ -85,6 +87,8 @@ func drawC09One(t *rapid.T) c09One {
 		v := mux.TrackSpec{Codec: codec}
 		if codec == "h265" {
 			v.Params = rapid.SampledFrom([]int{0, 2}).Draw(t, "h265set")
+		} else {
+			v.Params = rapid.IntRange(0, mux.NumParamSets(codec)-1).Draw(t, "paramset")
 		}
 		tracks = append(tracks, v)
 	}
@@ -95,7 +99,9 @@ func drawC09One(t *rapid.T) c09One {
 	for i := 0; i < nAudio; i++ {
 		a := mux.TrackSpec{Codec: "aac", SampleRate: rapid.SampledFrom([]int{48000, 44100, 32000}).Draw(t, "rate"), Channels: 2, AACType: 2}
 		if variant != mux.VariantMPEGTS && rapid.IntRange(0, 2).Draw(t, "opus") == 0 {
-			a = mux.TrackSpec{Codec: "opus", Channels: 2}
+			a = mux.TrackSpec{Codec: "opus", Channels: rapid.SampledFrom([]int{2, 2, 1}).Draw(t, "opusch")}
+		} else if rapid.IntRange(0, 3).Draw(t, "mono") == 0 {
+			a.Channels = 1
 		}
 		if rapid.Bool().Draw(t, "named") {
 			a.Name = rapid.SampledFrom([]string{"English", "Deutsch", "commentary"}).Draw(t, "name")
@@ -385,6 +391,13 @@ func runC09One(one c09One) c09Result {
 			res.violation = fmt.Sprintf("track %d (%s) reported with clock rate %d, expected %d", ci, spec.Codec, got.ClockRate, wantRate)
 			return res
 		}
+		if cfg.Variant != mux.VariantMPEGTS {
+			// "for fMP4 variants the same codec parameters" (no parameter change is scripted)
+			if d := codecParamDiff(mux.CodecOf(spec), got.Raw.Codec); d != "" {
+				res.violation = fmt.Sprintf("track %d (%s): codec parameters reported by the client differ from the muxer's: %s", ci, spec.Codec, d)
+				return res
+			}
+		}
 		if cfg.Variant != mux.VariantMPEGTS && ti != lead {
 			st, _ := cfg.StreamOf(ti)
 			wantName := spec.Name
@@ -529,3 +542,22 @@ var propC09 = core.Prop[c09Scenario]{
 }
 
 func TestC09(t *testing.T) { core.Run(t, propC09) }
+
+// codecParamDiff compares the codec the muxer was given with the one the client reports.
+func codecParamDiff(want, got codecs.Codec) string {
+	switch w := want.(type) {
+	case *codecs.AV1:
+		g, ok := got.(*codecs.AV1)
+		if !ok {
+			return fmt.Sprintf("type %T != %T", got, want)
+		}
+		if !bytes.Equal(mux.NormAV1(w.SequenceHeader), mux.NormAV1(g.SequenceHeader)) {
+			return fmt.Sprintf("sequence header %x != %x", g.SequenceHeader, w.SequenceHeader)
+		}
+		return ""
+	}
+	if !reflect.DeepEqual(want, got) {
+		return fmt.Sprintf("%+v != %+v", got, want)
+	}
+	return ""
+}
